@@ -12,6 +12,7 @@ hypotheses (instantiated below to show they are satisfiable), never axioms.
 -/
 import Gotlcp.Lemmas.Cookie
 import Gotlcp.Generated.Facts
+import Gotlcp.Tie.Cookie
 
 namespace Gotlcp.Props.C18
 open Gotlcp Gotlcp.Model.Cookie Gotlcp.Lemmas.Cookie
@@ -330,5 +331,74 @@ theorem C18_secret_per_conn (cfg field draw draw2 : Bytes) :
 example : (effectiveSecret [] [] [1, 2, 3]).1 = [1, 2, 3]
     ∧ (effectiveSecret [] (effectiveSecret [] [] [1, 2, 3]).2 [4, 5, 6]).1 = [1, 2, 3]
     ∧ (effectiveSecret [7] [] [1, 2, 3]).1 = [7] := by decide
+
+/-! ### the same statements about the SOURCE TEXT
+
+`Gotlcp.Src.dtlcp.{clientHelloMsg.marshalForCookie, generateCookie, verifyCookie}` are regenerated
+from dtlcp/handshake_server.go and dtlcp/cookie.go by the translator `harness/cmd/go2lean` on every
+run; `hmac.New(sm3.New, k)`/`Write`/`Sum(nil)` is the parameter `ext.hmacSM3 k input`,
+`subtle.ConstantTimeCompare` is equality.  `Gotlcp.Tie.Cookie` proves that the translated text MACs
+exactly the model's framed input over exactly the model's parameter encoding, for all inputs. -/
+
+open Gotlcp.Tie.Cookie in
+theorem C18_src_translated : Src.untranslated = [] := by decide
+
+open Gotlcp.Tie.Cookie in
+/-- The byte string the translated `generateCookie` authenticates determines the client address
+and the parameter bytes (addresses shorter than 64 KiB, as every `net.Addr.String()` is). -/
+theorem C18_src_binding (a a' p p' : BV) (la : a.length < 65536) (la' : a'.length < 65536)
+    (e : srcCookieInput a p = srcCookieInput a' p') : a = a' ∧ p = p' := by
+  have e' := congrArg toBytes e
+  rw [tie_cookieInput, tie_cookieInput] at e'
+  have := cookieInputFramed_inj (by simpa using la) (by simpa using la') e'
+  exact ⟨toBytes_inj this.1, toBytes_inj this.2⟩
+
+open Gotlcp.Tie.Cookie in
+/-- The translated `marshalForCookie` determines version, random, session id, cipher suites and
+compression methods of every decodable ClientHello. -/
+theorem C18_src_params_injective (m m' : Src.dtlcp.clientHelloMsg)
+    (w : (absHello m).WF) (w' : (absHello m').WF)
+    (e : Src.dtlcp.clientHelloMsg.marshalForCookie m = Src.dtlcp.clientHelloMsg.marshalForCookie m') :
+    absHello m = absHello m' := by
+  have e' := congrArg toBytes e
+  rw [tie_marshalForCookie, tie_marshalForCookie] at e'
+  exact marshalForCookie_inj w w' e'
+
+open Gotlcp.Tie.Cookie in
+/-- With an ideal keyed hash (injective in key and input — a hypothesis on the parameter, never an
+axiom) the translated `verifyCookie` accepts the cookie the translated `generateCookie` issued under
+secret `k` to address `a` for hello `m` exactly for the same secret, the same address and the same
+covered parameters. -/
+theorem C18_src_accept_iff (ext : Go.Extern)
+    (hinj : ∀ k x k' x', ext.hmacSM3 k x = ext.hmacSM3 k' x' → k = k' ∧ x = x')
+    (k k' a a' : BV) (m m' : Src.dtlcp.clientHelloMsg)
+    (w : (absHello m).WF) (w' : (absHello m').WF) (la : a.length < 65536) (la' : a'.length < 65536) :
+    Src.dtlcp.verifyCookie ext k' a' (Src.dtlcp.clientHelloMsg.marshalForCookie m')
+        (Src.dtlcp.generateCookie ext k a (Src.dtlcp.clientHelloMsg.marshalForCookie m)) = true
+      ↔ (k' = k ∧ a' = a ∧ absHello m' = absHello m) := by
+  rw [tie_verifyCookie, tie_generateCookie, decide_eq_true_iff]
+  constructor
+  · intro e
+    obtain ⟨hk, hx⟩ := hinj _ _ _ _ e
+    obtain ⟨ha, hp⟩ := C18_src_binding _ _ _ _ la' la hx
+    exact ⟨hk, ha, C18_src_params_injective _ _ w' w hp⟩
+  · rintro ⟨rfl, rfl, hm⟩
+    have : Src.dtlcp.clientHelloMsg.marshalForCookie m' = Src.dtlcp.clientHelloMsg.marshalForCookie m := by
+      apply toBytes_inj
+      rw [tie_marshalForCookie, tie_marshalForCookie, hm]
+    rw [this]
+
+/-- non-vacuity: the translated code evaluated by the kernel on a concrete hello and address, with
+"tag = key ‖ input" as the keyed hash -/
+def exExt : Go.Extern := ⟨fun k x => k ++ x⟩
+def exSrcHello : Src.dtlcp.clientHelloMsg :=
+  { vers := 0x0101#16, random := List.replicate 32 (7#8), sessionId := [1#8],
+    cipherSuites := [0xe013#16, 0xe011#16], compressionMethods := [0#8] }
+example :
+    Src.dtlcp.verifyCookie exExt [9#8] [0x31#8, 0x3a#8, 0x35#8] (Src.dtlcp.clientHelloMsg.marshalForCookie exSrcHello)
+        (Src.dtlcp.generateCookie exExt [9#8] [0x31#8, 0x3a#8, 0x35#8] (Src.dtlcp.clientHelloMsg.marshalForCookie exSrcHello)) = true
+    ∧ Src.dtlcp.verifyCookie exExt [9#8] [0x31#8, 0x3a#8] (Src.dtlcp.clientHelloMsg.marshalForCookie exSrcHello)
+        (Src.dtlcp.generateCookie exExt [9#8] [0x31#8, 0x3a#8, 0x35#8] (Src.dtlcp.clientHelloMsg.marshalForCookie exSrcHello)) = false := by
+  decide
 
 end Gotlcp.Props.C18
